@@ -71,7 +71,7 @@ def plan(tier, seed, models=None, extra_default=True):
     return out
 
 
-def run_plan(chk: Check, select, runs, mode="solve", objective=0, time_limit=None, **kw):
+def run_plan(chk: Check, select, runs, mode="solve", objective=0, time_limit=None, flags_extra=None, **kw):
     batch = []
     known = [k for k in load_known() if k.get("harness") == "solve" and k["prop"] in select]
     for name, cfg in runs:
@@ -79,7 +79,7 @@ def run_plan(chk: Check, select, runs, mode="solve", objective=0, time_limit=Non
         params = dict(model=name, cfg=cfg, mode=mode, select=list(select), objective=objective, known=known)
         params.update(kw)
         n_before = len(chk.violations)
-        r = chk.explore("solve", params, label, time_limit=time_limit or (900 if chk.tier == "quick" else 3600), flags=dict(loop_budget=6000))
+        r = chk.explore("solve", params, label, time_limit=time_limit or (900 if chk.tier == "quick" else 3600), flags=dict(dict(loop_budget=6000), **(flags_extra or {})))
         for v in chk.violations[n_before:]:
             # a run made on behalf of this property: whatever it finds counts for it (the query family is kept)
             if v.get("prop") != chk.pid:
